@@ -272,7 +272,7 @@ htp_status_t htp_gzip_decompressor_decompress(htp_decompressor_t *drec1, htp_tx_
     // out not to be what was announced, decompression is tried again with other settings,
     // or the data is passed through; either has to start at the beginning of the stream,
     // which may have arrived in earlier calls.
-    if ((drec->zlib_initialized != 0) && (drec->zlib_initialized != HTP_COMPRESSION_LZMA) && (drec->head_len != (size_t) -1)) {
+    if ((drec->zlib_initialized != 0) && (drec->head_len != (size_t) -1)) {
         unsigned char *head = NULL;
         if ((drec->stream.total_out == 0) && (drec->head_len + d->len <= GZIP_BUF_SIZE)) {
             head = realloc(drec->head, drec->head_len + d->len);
@@ -337,11 +337,15 @@ restart:
             }
             if (drec->header_len == LZMA_PROPS_SIZE + 8) {
                 rc = LzmaDec_Allocate(&drec->state, drec->header, LZMA_PROPS_SIZE, &lzma_Alloc);
-                if (rc != SZ_OK)
-                    return rc;
-                LzmaDec_Init(&drec->state);
-                // hacky to get to next step end retry allocate in case of failure
-                drec->header_len++;
+                if (rc != SZ_OK) {
+                    // Not something we can decode: handled below like any other
+                    // data that is not what was announced.
+                    rc = Z_DATA_ERROR;
+                } else {
+                    LzmaDec_Init(&drec->state);
+                    // hacky to get to next step end retry allocate in case of failure
+                    drec->header_len++;
+                }
             }
             if (drec->header_len > LZMA_PROPS_SIZE + 8) {
                 size_t inprocessed = drec->stream.avail_in;
@@ -353,6 +357,7 @@ restart:
                 drec->stream.next_in += inprocessed;
                 drec->stream.avail_out -= outprocessed;
                 drec->stream.next_out += outprocessed;
+                drec->stream.total_out += outprocessed;
                 switch (rc) {
                     case SZ_OK:
                         rc = Z_OK;
@@ -417,10 +422,13 @@ restart:
             htp_verif_site(HTP_VERIF_SITE_DECOMP_RESTART, d->tx->connp,
                     (long) drec->stream.total_in - (long) (d->len - drec->stream.avail_in), (long) drec->restart);
 #endif
+            int lzma_failed = 0;
             if (drec->zlib_initialized == HTP_COMPRESSION_LZMA) {
                 LzmaDec_Free(&drec->state, &lzma_Alloc);
                 // so as to clean zlib ressources after restart
                 drec->zlib_initialized = HTP_COMPRESSION_NONE;
+                // there is nothing else to try for data announced as LZMA
+                lzma_failed = 1;
             } else {
                 inflateEnd(&drec->stream);
             }
@@ -434,7 +442,7 @@ restart:
             }
 
             // see if we want to restart the decompressor
-            if (htp_gzip_decompressor_restart(drec,
+            if (!lzma_failed && htp_gzip_decompressor_restart(drec,
                                               d->data, d->len, &consumed) == 1)
             {
                 // we'll be restarting the compressor
